@@ -842,13 +842,16 @@ impl<'layout, 'out> TableWriter<'layout, 'out> {
             self.write_dtpmod_relocation::<A>(got_address, dynamic_symbol_index)?;
         }
         let offset_entry = self.take_next_got_entry()?;
-        if let Some(dynamic_symbol_index) = res.dynamic_symbol_index {
-            if res.flags.is_interposable() {
-                self.write_dtpoff_relocation::<A>(
-                    got_address + crate::elf::TLS_OFFSET_OFFSET,
-                    dynamic_symbol_index.get(),
-                )?;
-            }
+        // Only a symbol that can be interposed needs the dynamic loader to fill in the offset. An
+        // exported symbol that we define ourselves has a dynamic symbol index too, but its offset
+        // is known now.
+        if let Some(dynamic_symbol_index) = res.dynamic_symbol_index
+            && res.flags.is_interposable()
+        {
+            self.write_dtpoff_relocation::<A>(
+                got_address + crate::elf::TLS_OFFSET_OFFSET,
+                dynamic_symbol_index.get(),
+            )?;
             *offset_entry = 0;
             return Ok(());
         }
